@@ -566,8 +566,16 @@ where
         buf: &mut D,
     ) -> Poll<Result<usize, StreamErrorIncoming>> {
         if self.writing.is_some() {
-            // This signifies a bug in implementation
-            panic!("poll_send called while send stream is not ready")
+            // A framed write (send_data) is still in flight; refuse like send_data does
+            // instead of interleaving the two writes
+
+            #[cfg(feature = "tracing")]
+            tracing::error!("poll_send called while send stream is not ready");
+            return Poll::Ready(Err(StreamErrorIncoming::ConnectionErrorIncoming {
+                connection_error: ConnectionErrorIncoming::InternalError(
+                    "internal error in the http stack".to_string(),
+                ),
+            }));
         }
 
         let s = Pin::new(&mut self.stream);
